@@ -24,7 +24,10 @@ def mk_case(rng, cid, plugin, tie=False, depth=None, fan=None):
     cgs, info, pids = KG.gen_tree(rng, depth=depth, fan=fan or rng.choice([2, 3, 4]), tie=tie,
                                   pidcounts=(0, 1, 1, 2, 3), pref_p=0.35, oomgroup_p=0.2, unpop_p=0.3)
     pats = KG.patterns_for(rng, info)
-    args = KG.kill_args(rng, plugin, pats, recursive=rng.random() < 0.7)
+    wide = bool(fan and fan > 15)
+    if wide:
+        pats = [rng.choice(["wl/*", "wl"])]
+    args = KG.kill_args(rng, plugin, pats, recursive=wide or rng.random() < 0.7)
     args.pop("always_continue", None)
     kill = {"default": "ok", "pids": {}}
     # per-cgroup outcome: fail = every pid of the cgroup's own procs ESRCH
@@ -167,6 +170,10 @@ def cases(seed, tier):
     rng = random.Random(seed * 1000003 + 3)
     for i in range(n):
         plugin = KG.PLUGINS[i % 5]
+        if i % 12 == 5:
+            # wide peer groups: 17-40 siblings matched by the pattern, or below a cgroup that is descended into
+            yield mk_case(rng, "C03-%d-%d" % (seed, i), plugin, tie=False, depth=rng.choice([1, 1, 2]), fan=rng.choice([17, 18, 24, 40]))
+            continue
         yield mk_case(rng, "C03-%d-%d" % (seed, i), plugin, tie=(i % 7 == 0))
     for i in range(n // 5):
         yield mk_hook_case(rng, "C03h-%d-%d" % (seed, i))
